@@ -118,6 +118,14 @@ def _run_case(rng, res, idx, maxlen):
             if other is not None:
                 other.train_iteration()
                 other.p.step()
+                if cfg['acc'] > 1:
+                    # ... and a complete iteration of the other model INSIDE this model's accumulation window (two models
+                    # trained alternately in one process)
+                    def _other_iteration():
+                        other.train_iteration()
+                        other.p.step()
+                        res.count('other_model_iterations_inside_accumulation_windows')
+                    s.between = _other_iteration
             s.train_iteration()
             if ev[1] and all(s.ref.A[n] is not None for n in s.layers):
                 s.p.reset_batch()
